@@ -1,5 +1,5 @@
 (* Props/C11.v -- property C11: parsing respects precedence, associativity and token boundaries. *)
-From FPV Require Import Base.Prelude C11.Model C11.Proofs.
+From FPV Require Import Base.Prelude C11.Model C11.Proofs C11.ProofsFull.
 
 (* PROVED (partial): for ANY precedence table and every tree of the binary-operator core (atoms, binary
    operators of every level, parenthesised sub-terms) of ANY depth, the model parser inverts the
@@ -31,9 +31,28 @@ Theorem C11_whole_input_consumed : forall T ts t, parse_prog T ts = Some t -> ex
 Proof. exact whole_input_consumed. Qed.
 Print Assumptions C11_whole_input_consumed.
 
-(* NOT PROVED (stated in full):
-   Theorem C11_parse_render_min : forall T t p rest, wf_tree T t -> follow_ok T p rest ->
-     exists f0, forall f, f0 <= f -> parse_expr T f p (render_min T p t ++ rest) = Some (t, rest)
-   for the whole tree language (polarity, type operators, member/function invocation, indexer, function
-   arguments), and the same for render_full; and the lexer-level statement that whitespace/comment gaps do
-   not change the token list.  These are covered by the correspondence run only. *)
+(* PROVED (full tree language): for any precedence table in which every binary and type operator binds looser than
+   polarity and polarity looser than indexers and invocations -- fhirpath.g4's table is one (Example below) --
+   every well-formed tree of ANY size over atoms, polarity, binary operators, is/as with qualified type names,
+   member access, function and method invocation with argument lists, and indexers, printed with minimal
+   parentheses at level p and followed by anything a loop at level p leaves alone, parses back to exactly that
+   tree and leaves exactly the rest. *)
+Theorem C11_parse_render_min : forall T,
+  (p_polarity T < p_index T)%nat -> (p_polarity T < p_invoke T)%nat -> (p_index T <= S (p_invoke T))%nat ->
+  forall t p rest, wf T t -> (p <= S (p_invoke T))%nat -> absorbs T p rest = false -> nolp rest ->
+  exists f0, forall f, (f0 <= f)%nat -> parse_expr T f p (render_min T p t ++ rest) = Some (t, rest).
+Proof. exact parse_render_min_full. Qed.
+(* whenever the prog rule answers on a printed tree, it answers that tree *)
+Theorem C11_parse_prog_render_min : forall T,
+  (p_polarity T < p_index T)%nat -> (p_polarity T < p_invoke T)%nat -> (p_index T <= S (p_invoke T))%nat ->
+  forall t, wf T t -> forall t', parse_prog T (render_min T 0 t) = Some t' -> t' = t.
+Proof. exact parse_prog_render_min. Qed.
+Theorem C11_fhirpath_table_meets_conditions :
+  (p_polarity fhirpath_table < p_index fhirpath_table)%nat /\ (p_polarity fhirpath_table < p_invoke fhirpath_table)%nat
+  /\ (p_index fhirpath_table <= S (p_invoke fhirpath_table))%nat.
+Proof. exact fhirpath_table_conditions. Qed.
+Print Assumptions C11_parse_render_min.
+Print Assumptions C11_parse_prog_render_min.
+
+(* NOT PROVED: the same statement for the full-parenthesis printer render_full, and the lexer-level statement that
+   whitespace / comment gaps do not change the token list.  These are covered by the correspondence run only. *)
